@@ -70,7 +70,7 @@ PASSES = {
 }
 ANALYSIS_ONLY = {"Checker"}
 BOUNDARY = {"Checker": "check_model", "ShapeInference": "infer_shapes"}
-MODES = ["single", "single", "repeat", "sequential", "manager", "functional", "fmanager"]
+MODES = ["single", "single", "repeat", "sequential", "manager", "functional", "fmanager", "fseq"]
 EXCS = {"ValidationError": lambda: onnx.checker.ValidationError("injected"), "RuntimeError": lambda: RuntimeError("injected"), "MemoryError": lambda: MemoryError("injected")}
 
 
@@ -92,6 +92,17 @@ def gen_case(run_seed: int, tier: str, index: int = 0) -> dict:
     for _ in range(r.choice([3, 4, 6, 8])):
         p = r.choice(names) if (r.random() < 0.7 or params["name_noise"]) else r.choice(["Checker", "ShapeInference"])
         step = {"pass": p, "opt": r.randrange(8), "mode": r.choice(MODES), "fault": None}
+        if step["mode"] == "fseq":
+            # functionalize(<composition>): the composition often starts with a pass that only inspects the model, and
+            # its members are a mix of in-place passes and already functionalized ones
+            fr = Streams(run_seed).rng(f"fseq-{len(schedule)}")
+            if fr.random() < 0.5 and "Checker" in names:
+                step["pass"] = p = "Checker"
+            step["others"] = [[fr.choice(names), fr.randrange(8)] for _ in range(fr.choice([1, 2, 3]))]
+            step["wrap"] = [fr.random() < 0.4 for _ in step["others"]]
+            step["steps"] = fr.choice([1, 2])
+            step["early_stop"] = fr.random() < 0.6
+            step["as_manager"] = fr.random() < 0.5
         if step["mode"] in ("sequential", "manager", "fmanager"):
             step["others"] = [[r.choice(names), r.randrange(8)] for _ in range(r.choice([1, 2]))]
             step["steps"] = r.choice([1, 2, 3])
@@ -280,6 +291,10 @@ def _build(step):
         return ir.passes.PassManager([inner], steps=2, early_stop=True)
     if mode == "functional":
         return ir.passes.functionalize(p)
+    if mode == "fseq":
+        members = [p] + [ir.passes.functionalize(PASSES[n](o)) if wr else PASSES[n](o) for (n, o), wr in zip(step["others"], step["wrap"])]
+        comp = ir.passes.PassManager(members, steps=step["steps"], early_stop=step["early_stop"]) if step["as_manager"] else ir.passes.Sequential(*members)
+        return ir.passes.functionalize(comp)
     if mode == "fmanager":
         # a manager composed of functional passes is itself functional
         return ir.passes.PassManager([ir.passes.functionalize(x) for x in [p] + [PASSES[n](o) for n, o in step["others"]]], steps=step["steps"], early_stop=step["early_stop"])
@@ -383,6 +398,9 @@ def run_case(case: dict) -> dict:
             if raised is not None:
                 inc("pass_raised")
                 inc("pass_raised_" + name)
+                if mode in ("functional", "fseq") and snap_after != snap_before and viol is None:
+                    d = snapshot.diff(snap_before, snap_after)
+                    viol = ("functional-pass-altered-input", f"step {si} functionalize({name}...) raised {type(raised).__name__} and its input changed: {str(d[:2])[:400]}", f"functional-pass-altered-input|{name}|raised")
                 # analysis-only passes and a failing shape inference leave the model exactly unchanged, even on failure
                 if (analysis_only or (name == "ShapeInference" and mode in ("single", "repeat"))) and snap_after != snap_before and viol is None:
                     d = snapshot.diff(snap_before, snap_after)
@@ -401,10 +419,11 @@ def run_case(case: dict) -> dict:
                     model = result.model if si % 2 else model
                     if viol is None:
                         continue
-                elif mode == "functional":
+                elif mode in ("functional", "fseq"):
                     if snap_after != snap_before and viol is None:
                         d = snapshot.diff(snap_before, snap_after)
-                        viol = ("functional-pass-altered-input", f"step {si} functionalize({name}) changed its input: {str(d[:2])[:400]}", f"functional-pass-altered-input|{name}")
+                        members_ = "+".join([name] + [o[0] for o in step.get("others", [])]) if mode == "fseq" else name
+                        viol = ("functional-pass-altered-input", f"step {si} functionalize({members_}) changed its input: {str(d[:2])[:400]}", f"functional-pass-altered-input|{name}" + ("|fseq" if mode == "fseq" else ""))
                     if result.modified:
                         nontrivial = True
                     model = result.model if si % 2 else model  # sometimes continue on the copy
